@@ -310,17 +310,21 @@ func newGRPCBroker(s streamer, tls *tls.Config, unixSocketCfg UnixSocketConfig, 
 func (b *GRPCBroker) Accept(id uint32) (net.Listener, error) {
 	if b.muxer.Enabled() {
 		p := b.getServerStream(id)
+		ln, err := b.muxer.Listener(id, p.doneCh)
+		if err != nil {
+			return nil, err
+		}
+
+		// Only start answering knocks once the listener for this ID is
+		// registered with the muxer: a knock that is acknowledged before that
+		// makes the muxer reject the announced stream and tear down the main
+		// connection.
 		go func() {
 			err := b.listenForKnocks(id)
 			if err != nil {
 				log.Printf("[ERR]: error listening for knocks, id: %d, error: %s", id, err)
 			}
 		}()
-
-		ln, err := b.muxer.Listener(id, p.doneCh)
-		if err != nil {
-			return nil, err
-		}
 
 		ln = &rmListener{
 			Listener: ln,
